@@ -283,7 +283,7 @@ class TrafficTimer:
     connected.upon(
         traffic_seen,
         enter=connected,
-        outputs=[begin_timing]
+        outputs=[]
     )
 
     idle_traffic.upon(
